@@ -188,7 +188,8 @@ def gen_c15(seed, tier):
     desc, rng = base_desc(seed, tier, registry=registry, faults=rng0.random() < 0.5,
                           p_unpack=0.0 if registry else 0.08)
     op = desc["ops"][0]
-    op["cfg"]["progress"] = rng.choice(["rec", "rec", "rec2"])
+    op["cfg"]["progress"] = rng.choice(["rec", "rec", "rec2", "rec2", "rec2fail"])
+    op["cfg"]["fail_member"] = rng.choice(["obs0", "obs1", "obs2"])
     op["cfg"]["obs_yield"] = rng.random() < 0.5
     op["cfg"]["max_errors"] = rng.choice([0, 1, 3, None])
     if "faults" in op:
@@ -469,7 +470,9 @@ def execute(prop, desc):  # noqa: F811
 def gen_c13(seed, tier):  # noqa: F811
     rng0 = worldgen.child_rng(seed, "c13")
     registry = rng0.random() < 0.5
-    mode = rng0.choice(["single", "single", "concurrent", "repeat"])
+    mode = rng0.choice(["single", "single", "concurrent", "repeat", "foreign"])
+    if mode == "foreign":
+        registry = True
     desc, rng = base_desc(seed, tier, registry=registry, faults=(mode == "single" and rng0.random() < 0.5),
                           p_unpack=0.0 if registry else 0.08)
     desc["mode"] = mode
@@ -531,7 +534,23 @@ def exec_c13(prop, desc):
         outs.extend(results)
         return results[0][1] if results[0][0] == "ok" else None
 
-    rec = machine.run_op(hist, op, 0, tape=tapes.get("0"), client_wrap=wrap)
+    built0 = None
+    if mode == "foreign":
+        # a Registry shared with another plan: it holds entries for nodes that are not in the plan being run
+        from model.build import build
+        from model.stores import SimStore
+        from simkit import shims
+
+        shims.install_node_hash(desc["sched"].get("salt", 0))
+        built0 = build(world)
+        other = uberjob.Plan()
+        for k in range(desc["clients"]):
+            built0.registry.add(other.call(len, [k]), SimStore(f"foreign{k}"))
+        if desc["seed"] % 2:
+            built0.registry.source(other, SimStore("foreign-src"))
+        if desc["seed"] % 3 == 0:
+            op = dict(op, cfg=dict(op["cfg"], dry_run=True))
+    rec = machine.run_op(hist, op, 0, tape=tapes.get("0"), client_wrap=wrap, built=built0)
     viol.extend(O.o_unmodified(rec, world, hist))
     viol.extend(O.o_term(rec, world, hist)[:1])
     if not viol and mode == "concurrent" and not op["cfg"].get("dry_run"):
@@ -752,6 +771,12 @@ _gen_c01_plan = gen_c01
 def gen_c01(seed, tier):  # noqa: F811
     if seed % 4 == 0:
         return gen_direct(seed, tier)
+    if seed % 4 == 1:
+        # dependencies routed through literals, incl. literals that depend on literals
+        desc, rng = base_desc(seed, tier, p_dep=0.5, p_lit=0.4, p_lit_chain=0.3, p_parallel=0.3, p_late_dep=0.3,
+                              p_nested=0.15, durs=(0.0, 0.0, 1.0, 2.0), out_modes=("struct", "struct", "node"))
+        desc["ops"][0]["cfg"]["max_errors"] = 0
+        return desc
     return _gen_c01_plan(seed, tier)
 
 
